@@ -99,6 +99,22 @@ CLAIMS['C03'] = dict(
          "That the sweep's arithmetic visits every bucket, chain contents over histories, and swap are NOT decided.",
     technique="role discovery by effect + path-sensitive typestate over inlined LLVM IR + dominance/ordering rules + no-wrap obligations")
 
+CLAIMS['C12'] = dict(
+    text="Decides, on every path of the code as written: (D1) every function documented to return NULL can return it; (D2) swap "
+         "re-anchors both lists to their own sentinel in the empty and the non-empty case, reading the links after the bitwise swap; "
+         "(D3) concat splices only distinct lists, adds the size once and re-initialises the source; (D4) foreach binds next for FWD "
+         "and prev for REV, never touches a node after its visit, and propagates the first non-zero result (path-sensitive); (D5) "
+         "size is adjusted exactly once per primitive. The link correctness of reverse / sort / merge and equality with a reference "
+         "sequence are NOT decided.",
+    technique="documentation-contract rule (AST + IR return values) + dominating facts + typestate over LLVM IR")
+CLAIMS['C13'] = dict(
+    text="Decides, on every path of the code as written: (N1) pop_front / front / back can return the documented NULL; (N2) every "
+         "function that writes a node link also maintains the same list's tail pointer (or re-initialises that list); (N3) swap "
+         "re-anchors an empty list's tail to its own head link, reading the count after the swap; (N4) foreach reads the successor "
+         "before the visit and propagates the first non-zero result; (N5) count is adjusted exactly once per primitive, concat adds "
+         "once and re-initialises the source. That reverse / sort / merge produce the right order is NOT decided.",
+    technique="documentation-contract rule (AST + IR return values) + field-effect rule + dominating facts + typestate over LLVM IR")
+
 NA = {
     'C02': "inductive colour/black-height invariant over an unbounded pointer structure; needs shape/separation reasoning that no static analyser available here provides (DESIGN.md 4/C02)",
     'C07': "heap order and completeness are inductive invariants tying pointer shape to size arithmetic; not expressible as dataflow/typestate/effects (DESIGN.md 4/C07)",
